@@ -3,7 +3,7 @@
    PositiveMap keyed by a numeric encoding of the word.  The encoding need not be injective
    for soundness: NoDup (map key l) -> NoDup l, and a word of A always finds its key in A's map. *)
 From Coq Require Import NArith PArith Arith List Bool Lia FMapPositive.
-From BU Require Import Base.Bytes.
+From BU Require Import Base.Bytes Gen.WlBip39.
 Import ListNotations.
 Open Scope N_scope.
 
@@ -137,3 +137,6 @@ Definition shared (A B : list (list N)) : list (list N) := filter (fun w => wmem
 
 Lemma shared_spec A B w : In w (shared A B) <-> In w A /\ In w B.
 Proof. unfold shared. rewrite filter_In, wmemb_In. tauto. Qed.
+
+(* the k-th configured BIP-39 list (Gen.WlBip39.bip39_langs, enumeration order) *)
+Definition lang_at (k : nat) : list (list N) := nth k bip39_langs [].
